@@ -9,5 +9,6 @@ CONSTANTS
   MissingParentIgnored = TRUE
   ProfileBeatsFlag = FALSE
   EnvProfileBeatsFlag = FALSE
+  WindowAsUnit = FALSE
 INVARIANTS C32_MissingReported
 CHECK_DEADLOCK FALSE
